@@ -1083,6 +1083,8 @@ def _named_runs(chk, hb, sb, d, cat):
                   "unnamed_fns.sol", "multibyte_items.sol"):
             if os.path.exists(os.path.join(ROOT, "corpus", f)):
                 shutil.copy(os.path.join(ROOT, "corpus", f), os.path.join(src, "H_" + f))
+        # a file with a pinned pragma and not a single caret in its text that has vulnerability findings all the same
+        shutil.copy(os.path.join(ROOT, "corpus", "dirwalk", "c1.sol"), os.path.join(src, "D_c1.sol"))
         tpath = os.path.join(d, "trace-named.ndjson")
         xpath = os.path.join(d, "texts-named.ndjson")
         chk.add_harness(vlib.harness(hb, ["detect-record", src, "-", tpath, xpath]), count_traces=False)
